@@ -117,7 +117,7 @@ Enq(c, r, l) ==
   /\ cw[c] = "called"
   /\ l \in LaneIds /\ Used(l)
   /\ slot[info[c].h] \in {Unknown, l}
-  /\ slot' = [slot EXCEPT ![info[c].h] = l]
+  /\ slot' = IF r = "ok" THEN [slot EXCEPT ![info[c].h] = l] ELSE slot   \* a rejection shows no lane
   /\ CASE r = "ok" ->
             /\ ~qclosed[l] \/ (~FixPcAdd /\ kind = "pchan")
             /\ queue' = [queue EXCEPT ![l] = Append(@, c)]
